@@ -215,7 +215,7 @@ struct CoroBox {
 struct Stats {
   long ops[OP_KIND_COUNT] = {};
   long calls_accepted = 0, calls_rejected = 0, resumes = 0, late_resumes = 0, interleaved_resumes = 0, destroyed_unfinished = 0, eager = 0, lazy = 0, clause_throw = 0,
-       completed = 0, threw_at_await = 0, multi_call_same_exp = 0, lazy_with_param = 0, mutations = 0;
+       completed = 0, threw_at_await = 0, multi_call_same_exp = 0, lazy_with_param = 0, mutations = 0, referent_mutations = 0;
 };
 
 class ExecC {
@@ -293,6 +293,21 @@ class ExecC {
 
   // the local a clause mentions changes after the expectation was written: plain clauses copied it, LR_ clauses see it
   void do_mutate(const Op& op) {
+    if (op.a[2] & 1) {
+      // the caller's object behind a reference parameter changes between the call and a later resume: clauses that
+      // mention _1 see the object, not a copy taken at the call
+      auto lc = live_coros();
+      for (size_t k = 0; k < lc.size(); ++k) {
+        int cid = lc[(static_cast<unsigned>(op.a[0]) + k) % lc.size()];
+        CoroBox& b = *boxes[static_cast<size_t>(cid)];
+        if (!b.refarg || M.coros[static_cast<size_t>(cid)].done) continue;
+        *b.refarg += 100 + (op.a[1] & 7);
+        M.coros[static_cast<size_t>(cid)].arg = *b.refarg;
+        ++st.referent_mutations;
+        return;
+      }
+      return;
+    }
     auto live = live_exps(); if (live.empty()) return;
     int id = live[static_cast<unsigned>(op.a[0]) % live.size()];
     M.exps[static_cast<size_t>(id)].live_v1 += 100 + (op.a[1] & 7);
@@ -523,7 +538,7 @@ static Plan gen_plan(uint64_t seed, bool faults, bool lazy_params) {
       case 1: o.kind = OP_CO_CALL; o.a[1] = rng.chance(3, 4) ? focus : rng.below(NCF); o.a[2] = rng.below(3); if (faults && rng.chance(1, 8)) { o.fault = FK_THROW; o.fault_at = rng.below(5); } break;
       case 2: o.kind = OP_CO_RESUME; o.a[0] = rng.below(8); if (faults && rng.chance(1, 10)) o.fault = FK_THROW; break;
       case 3: o.kind = OP_CO_DESTROY; o.a[0] = rng.below(8); break;
-      case 5: o.kind = OP_MUTATE; o.a[0] = rng.below(8); o.a[1] = rng.below(8); break;
+      case 5: o.kind = OP_MUTATE; o.a[0] = rng.below(8); o.a[1] = rng.below(8); o.a[2] = (focus == CF_CR || rng.chance(1, 4)) ? rng.below(2) : 0; break;
       default: o.kind = OP_RELEASE; o.a[0] = rng.below(8); break;
     }
     ops.push_back(o);
@@ -604,7 +619,7 @@ int main(int argc, char** argv) {
       if (ex->st.calls_accepted) mask = 1u << 14;
       for (int i = 0; i < OP_KIND_COUNT; ++i) tot.ops[i] += ex->st.ops[i];
 #define ADD(f) tot.f += ex->st.f;
-      ADD(calls_accepted) ADD(calls_rejected) ADD(resumes) ADD(late_resumes) ADD(interleaved_resumes) ADD(destroyed_unfinished) ADD(eager) ADD(lazy) ADD(clause_throw) ADD(completed) ADD(threw_at_await) ADD(multi_call_same_exp) ADD(lazy_with_param) ADD(mutations)
+      ADD(calls_accepted) ADD(calls_rejected) ADD(resumes) ADD(late_resumes) ADD(interleaved_resumes) ADD(destroyed_unfinished) ADD(eager) ADD(lazy) ADD(clause_throw) ADD(completed) ADD(threw_at_await) ADD(multi_call_same_exp) ADD(lazy_with_param) ADD(mutations) ADD(referent_mutations)
 #undef ADD
       if (failed) {
         std::string path = out + "/seedC-" + std::to_string(s) + ".replay";
@@ -627,7 +642,7 @@ int main(int argc, char** argv) {
   js << "},\"calls_accepted\":" << tot.calls_accepted << ",\"calls_rejected\":" << tot.calls_rejected << ",\"f_late_resume\":" << tot.late_resumes << ",\"f_interleaved_resume\":" << tot.interleaved_resumes
      << ",\"f_clause_throw\":" << tot.clause_throw << ",\"f_abandon\":" << tot.destroyed_unfinished << ",\"f_fatal_unwind\":" << tot.calls_rejected
      << ",\"p_resumes\":" << tot.resumes << ",\"p_eager_calls\":" << tot.eager << ",\"p_lazy_calls\":" << tot.lazy << ",\"p_completed\":" << tot.completed << ",\"p_threw_at_await\":" << tot.threw_at_await
-     << ",\"p_multi_call_same_expectation\":" << tot.multi_call_same_exp << ",\"p_lazy_with_parameter\":" << tot.lazy_with_param << ",\"p_local_mutated_after_creation\":" << tot.mutations << ",\"flag_observations\":0}";
+     << ",\"p_multi_call_same_expectation\":" << tot.multi_call_same_exp << ",\"p_lazy_with_parameter\":" << tot.lazy_with_param << ",\"p_local_mutated_after_creation\":" << tot.mutations << ",\"p_referent_changed_before_resume\":" << tot.referent_mutations << ",\"flag_observations\":0}";
   std::printf("STATS %s\n", js.str().c_str());
   (void)faults_fired0;
   bool any_failed = false;
